@@ -94,6 +94,36 @@ PROPS['C04'] = {
     'probes': ['drawing_requests_x_chains'],
 }
 
+HIST_STUB = ['malloc/calloc/realloc failures as history events (link-time --wrap)', 'pixel storage from the simulator arena', 'accessor and destroy callbacks']
+PROPS['C14'] = {
+    'level': 'exploration',
+    'passes': [{'variant': 'asan', 'binary': 'hist', 'runs': [12000, 400000], 'deadline_s': [150, 2400]}],
+    'crash_property': 'C14',
+    'rule': ("one evaluation = one seeded history of 30-100 (thorough: -140) operations on a pool of long-lived images: every pixman_image_set_* with values from small domains "
+             "(so set-same-again, A-B-A and set-then-clear are constant), alpha maps attached / detached / re-attached / owner destroyed, caller scribbling over pixels, allocation "
+             "failures in setters followed by a re-issue, interleaved with composites, fills, trapezoid and triangle requests that use the images as source, mask and destination.  "
+             "Before every drawing request fresh replicas are built from the model and the request runs on both; destinations must agree on their defined bits.  A quarter of the runs "
+             "execute the replica on a fresh thread (cold dispatch cache); the chain is seed-chosen.  Non-trivial = at least 3 replica comparisons; distinct = distinct event hashes"),
+    'real_vs_stub': {'real': IMG_REAL, 'stub_or_simulated': HIST_STUB},
+    'assumptions': COMMON_ASSUME + ["differential oracle: both sides are the same library, so a change of WHAT is drawn is invisible; only object-with-a-past vs fresh object differs",
+                                    "the model records the last SUCCESSFULLY applied value of each property, alpha-map attachment according to the API's two refusal rules evaluated on the current state"],
+    'probes': ['replica_comparisons', 'faults_fired', 'setter_reissued_after_fault', 'set_alpha_map', 'set_accessors', 'set_filter', 'set_clip32'],
+}
+PROPS['C20'] = {
+    'level': 'exploration',
+    'passes': [{'variant': 'asan', 'binary': 'hist', 'runs': [30000, 1000000], 'deadline_s': [150, 2400], 'tag': 'hist'},
+               {'variant': 'asan', 'binary': 'hist16', 'runs': [10000, 300000], 'deadline_s': [150, 2400], 'tag': 'hist16'}],
+    'crash_property': 'C20',
+    'rule': ("one evaluation = one seeded history of 20-60 (thorough: -90) operations over a pool of up to 12 images: create (all kinds; caller-owned and library-owned pixels), ref, "
+             "unref, set_destroy_function (also replaced / cleared mid-life), set_alpha_map in every legal and refused shape (self, chain, map that is itself mapped, re-attach, replace, "
+             "detach, owner destroyed first, map unreffed first), setters that replace owned buffers, glyph-cache insert / remove / destroy, allocation failures as events; at the end "
+             "the user drops every reference.  Oracle: reference-count + attachment model for unref's return value, destroy-callback ledger, exact live-block ledger (no leak, no double "
+             "free, caller pixels never freed), ASan.  Second pass: the same with a 16-slot glyph table (hook H4).  Non-trivial = at least 3 images released; distinct = distinct event hashes"),
+    'real_vs_stub': {'real': IMG_REAL, 'stub_or_simulated': HIST_STUB + ['glyph table size 16/8/4 in the hist16 pass (hook H4)']},
+    'assumptions': COMMON_ASSUME + ["an image that is made its own alpha map counts as a chain (it both has a map and is one) and must be refused"],
+    'probes': ['images_released', 'faults_fired', 'set_alpha_map', 'gc_insert', 'gc_remove', 'set_destroy'],
+}
+
 MANIFEST_TEXT = {}
 MANIFEST_TEXT['C06'] = {
     'technique': 'deterministic simulation: seeded operation histories with allocation-fault events against the real region code; canonical-form invariants + point-set equality oracle after every step',
@@ -128,4 +158,17 @@ MANIFEST_TEXT['C04'] = {
     'level_text': "memory-safety invariant monitored on every sampled request under 6 of the 32 chains per run (all chains over a batch); inputs sampled with bias to the listed edge geometry",
     'level_note': "reads by non-instrumented inline assembly are only caught by the guard page side",
     'design_ref': 'DESIGN.md section 4, C04',
+}
+
+MANIFEST_TEXT['C14'] = {
+    'technique': 'deterministic simulation over histories: seeded setter/draw histories with allocation-fault events on long-lived images, each drawing request re-executed on fresh replicas built from a property model (differential)',
+    'level_text': "seeded search over histories (the dimension the property quantifies over); every drawing request of every history is compared with its fresh-replica twin",
+    'level_note': "trusts the property model (last successfully applied value) and the replica builder; equality on defined bits",
+    'design_ref': 'DESIGN.md section 4, C14',
+}
+MANIFEST_TEXT['C20'] = {
+    'technique': 'deterministic simulation over histories: seeded ref/unref/attach/setter/glyph-cache histories with allocation-fault events against a reference-count and attachment model, destroy-callback ledger and exact allocation ledger',
+    'level_text': "seeded search over lifetime histories; every step checked against the model, every history ends with all references dropped and an empty allocation ledger",
+    'level_note': "trusts the 80-line lifetime model and the allocator wrapper's live table; ASan makes use-after-free visible",
+    'design_ref': 'DESIGN.md section 4, C20',
 }
